@@ -135,11 +135,26 @@ def sq_strategy(singular_ok=True):
                 rank = draw(st.integers(1, n - 1))
             # "tiny": entries k/4096, determinants down to 1e-15 but exactly invertible (only for the laws without singular input)
             mc = mat_case(draw, n, rank=rank, kinds=("int", "dyadic", "complex") if singular_ok else ("int", "dyadic", "complex", "tiny"))
-            return {"n": n, "batch": batch, "mc": mc, "rank": rank}
+            # round 16: memory layout of the argument (Fortran order, transposed view, strided view of a larger array)
+            layout = draw(st.sampled_from(("C", "C", "F", "Tview", "strided")))
+            return {"n": n, "batch": batch, "mc": mc, "rank": rank, "layout": layout}
 
         return s()
 
     return strat
+
+
+def lay(A, layout):
+    """The same matrices in another memory layout (the values and the shape are unchanged)."""
+    if layout == "F":
+        return np.asfortranarray(A)
+    if layout == "Tview":
+        return np.ascontiguousarray(np.swapaxes(A, -1, -2)).swapaxes(-1, -2)
+    if layout == "strided":
+        big = np.zeros(A.shape[:-1] + (2 * A.shape[-1],), dtype=A.dtype)
+        big[..., ::2] = A
+        return big[..., ::2]
+    return A
 
 
 def scale_of(ex):
@@ -148,7 +163,7 @@ def scale_of(ex):
 
 def run_det(case):
     mats = batch_exact(case["mc"], case["batch"])
-    A = to_np(mats, case["batch"], case["mc"]["kind"])
+    A = lay(to_np(mats, case["batch"], case["mc"]["kind"]), case.get("layout", "C"))
     A0 = A.copy()
     ck = Checker()
     d, f = call("det", U.det, A)
@@ -165,7 +180,7 @@ def run_det(case):
 
 def run_adj(case):
     mats = batch_exact(case["mc"], case["batch"])
-    A = to_np(mats, case["batch"], case["mc"]["kind"])
+    A = lay(to_np(mats, case["batch"], case["mc"]["kind"]), case.get("layout", "C"))
     A0 = A.copy()
     ck = Checker()
     r, f = call("adjugate", U.adjugate, A)
@@ -188,7 +203,7 @@ def run_inv(case):
     mats = batch_exact(case["mc"], case["batch"])
     if any(not X.det(m) for m in mats):
         raise Skip("singular")
-    A = to_np(mats, case["batch"], case["mc"]["kind"])
+    A = lay(to_np(mats, case["batch"], case["mc"]["kind"]), case.get("layout", "C"))
     A0 = A.copy()
     ck = Checker()
     r, f = call("inv", U.inv, A)
@@ -664,6 +679,8 @@ def sq_nontrivial(c):
 
 def sq_labels(c):
     out = [f"n{c['n']}", c["mc"]["kind"], "batch>=64" if C.prod(c["batch"]) >= 64 else "batch<64"]
+    if c.get("layout", "C") != "C":
+        out.append("layout:" + c["layout"] + (":batch>=64" if C.prod(c["batch"]) >= 64 else "") + (":n5" if c["n"] == 5 else ""))
     if c["rank"] is not None:
         out.append("singular")
     if any(p.get("pat") == "unit-columns" for p in c["mc"]["pool"]):
